@@ -123,7 +123,9 @@ class DataFrame:
             rows = [list(data[k]) for k in keys]
             if not rows:
                 return cls._from_cols({c: [] for c in (columns or [])}, Index([]))
-            names = list(columns) if columns is not None else list(range(len(rows[0])))
+            first = next(iter(data.values()))
+            names = list(columns) if columns is not None else (
+                list(first._fields) if hasattr(first, "_fields") else list(range(len(rows[0]))))
             return cls._from_cols({names[j]: [r[j] for r in rows] for j in range(len(names))}, Index(keys))
         return cls(data, columns=columns)
 
